@@ -116,12 +116,45 @@ func cidOf(poolIdx, j int) []byte {
 type shardSpec struct {
 	ids []int
 	k   []int
+	kl  []int // per candidate: 0 = the state holds its public key, 1 = no public key, 2 = malformed bytes (nil: all 0)
+}
+
+func (s *shardSpec) klOf(c int) int {
+	if s.kl == nil {
+		return 0
+	}
+	return s.kl[c]
+}
+
+// malformedKey returns bytes that are not a public key, different for every identity: a 65-byte
+// uncompressed-looking point that is not on the curve, or a short junk string.
+func malformedKey(id int) []byte {
+	h := sha256.Sum256([]byte(fmt.Sprintf("verif-c16/malformed/%d", id)))
+	if id%2 == 0 {
+		b := make([]byte, 65)
+		b[0] = 0x04
+		copy(b[1:], h[:])
+		copy(b[33:], h[:])
+		return b
+	}
+	return append([]byte{0x02, 0xff}, h[:18]...)
+}
+
+// statePubKey is what the identity's PubKey field in the state holds.
+func statePubKey(pool []*ident, id int, kl int) []byte {
+	switch kl {
+	case 1:
+		return nil
+	case 2:
+		return malformedKey(id)
+	}
+	return pool[id].pub
 }
 
 func (s *shardSpec) candidates(pool []*ident) []ceremony.VerifCandidate {
 	res := make([]ceremony.VerifCandidate, len(s.ids))
 	for c, id := range s.ids {
-		res[c] = ceremony.VerifCandidate{Address: pool[id].addr, PubKey: pool[id].pub}
+		res[c] = ceremony.VerifCandidate{Address: pool[id].addr, PubKey: statePubKey(pool, id, s.klOf(c))}
 		for j := 0; j < s.k[c]; j++ {
 			res[c].Flips = append(res[c].Flips, cidOf(id, j))
 		}
@@ -137,6 +170,7 @@ type layJ struct {
 	K   []int   `json:"k"`
 	Fo  [][]int `json:"fo"`
 	Fa  []int   `json:"fa"`
+	Kl  []int   `json:"kl"`
 	Tag string  `json:"tag"`
 }
 
@@ -145,6 +179,7 @@ type seenJ struct {
 	Auth []bool  `json:"auth"`
 	Fpa  [][]int `json:"fpa"`
 	Fam  []int   `json:"fam"`
+	Kl   []int   `json:"kl"`
 	Cids bool    `json:"cids"`
 }
 
@@ -230,10 +265,11 @@ func evaluateEvent(src string, pool []*ident, truth *shardSpec, res *ceremony.Ve
 		}
 		seenCid[string(cid)] = true
 	}
-	lay := layJ{N: n, K: make([]int, n), Fo: make([][]int, n), Fa: []int{}}
+	lay := layJ{N: n, K: make([]int, n), Fo: make([][]int, n), Fa: []int{}, Kl: make([]int, n)}
 	h := sha256.New()
 	for c, t := range order {
 		lay.K[c] = truth.k[t]
+		lay.Kl[c] = truth.klOf(t)
 		lay.Fo[c] = []int{}
 		h.Write(pool[truth.ids[t]].addr[:])
 		for j := 0; j < truth.k[t]; j++ {
@@ -264,7 +300,22 @@ func evaluateEvent(src string, pool []*ident, truth *shardSpec, res *ceremony.Ve
 	for f, cid := range res.Flips {
 		flipPos[string(cid)] = f
 	}
-	seen := seenJ{N: len(res.Addresses), Auth: append([]bool{}, res.IsAuthor...), Fpa: make([][]int, len(res.Addresses)), Fam: []int{}, Cids: exact}
+	seen := seenJ{N: len(res.Addresses), Auth: append([]bool{}, res.IsAuthor...), Fpa: make([][]int, len(res.Addresses)), Fam: []int{}, Kl: make([]int, len(res.Addresses)), Cids: exact}
+	for c, a := range res.Addresses {
+		// what the candidate's PubKey field holds
+		seen.Kl[c] = 3
+		if t, ok := byAddr[a]; ok && c < len(res.PubKeys) {
+			id := truth.ids[t]
+			switch {
+			case len(res.PubKeys[c]) == 0:
+				seen.Kl[c] = 1
+			case bytes.Equal(res.PubKeys[c], pool[id].pub):
+				seen.Kl[c] = 0
+			case bytes.Equal(res.PubKeys[c], malformedKey(id)):
+				seen.Kl[c] = 2
+			}
+		}
+	}
 	for c := range res.Addresses {
 		seen.Fpa[c] = []int{}
 		for _, cid := range res.FlipsPerAuthor[c] {
@@ -349,7 +400,9 @@ func runCeremony(e *env, w *lineBuf, pool []*ident, shards map[common.ShardId]*s
 			} else {
 				st.SetState(p.addr, candStates[id%len(candStates)])
 			}
-			st.SetPubKey(p.addr, p.pub)
+			if pk := statePubKey(pool, id, spec.klOf(c)); pk != nil {
+				st.SetPubKey(p.addr, pk)
+			}
 			if len(shards) > 1 || id%2 == 1 {
 				st.SetShardId(p.addr, shardId) // shard id 0 (unset) counts as shard 1
 			}
@@ -404,9 +457,14 @@ func runCeremony(e *env, w *lineBuf, pool []*ident, shards map[common.ShardId]*s
 			continue // the code lost or invented candidates: LayoutSeen reports it, nothing to bind further
 		}
 		who := func(c int) *ident { return pool[truth.ids[order[c]]] }
-		pubIdx := map[string]int{}
+		pubIdx := map[string]int{} // public key bytes handed to the packager -> candidate (-2: a candidate without any key)
 		for c := 0; c < n; c++ {
-			pubIdx[string(who(c).pub)] = c
+			switch kl := truth.klOf(order[c]); kl {
+			case 1:
+				pubIdx[""] = -2
+			default:
+				pubIdx[string(statePubKey(pool, truth.ids[order[c]], kl))] = c
+			}
 		}
 		nf := len(res.Flips)
 		if len(lay.Fa) != nf || !ev["seen"].(seenJ).Cids {
@@ -421,6 +479,36 @@ func runCeremony(e *env, w *lineBuf, pool []*ident, shards map[common.ShardId]*s
 			if n > 0 {
 				solvers[0] = 0 // always include candidate 0 (the node's own identity when it is a candidate)
 			}
+			// a key-less candidate, and a candidate listed AFTER a key-less one in some author's recipient list
+			keylessAt := func(c int) bool { return c >= 0 && c < n && truth.klOf(order[c]) != 0 }
+			found := false
+			for a := 0; a < n && !found; a++ {
+				list := res.CandidatesPerAuthor[a]
+				for i, c := range list {
+					if !keylessAt(c) {
+						continue
+					}
+					for _, d := range list[i+1:] {
+						if d >= 0 && d < n && !keylessAt(d) {
+							solvers = append(solvers, c, d)
+							found = true
+							break
+						}
+					}
+					if found {
+						break
+					}
+				}
+			}
+			uniq := map[int]bool{}
+			var us []int
+			for _, c := range solvers {
+				if !uniq[c] {
+					uniq[c] = true
+					us = append(us, c)
+				}
+			}
+			solvers = us
 		}
 		sort.Ints(solvers)
 		tryFlips := map[int][]int{}
@@ -478,6 +566,7 @@ func runCeremony(e *env, w *lineBuf, pool []*ident, shards map[common.ShardId]*s
 		// authors build and publish their packages
 		recipsOf := map[int][]int{}
 		pkgData := map[int][]byte{}
+		entries := map[int][][]byte{} // author -> entries extracted from its package (filled on demand)
 		for _, a := range packagers {
 			au := who(a)
 			pubKeys, err := vc.PrivateEncryptionKeyCandidates(au.addr)
@@ -495,6 +584,13 @@ func runCeremony(e *env, w *lineBuf, pool []*ident, shards map[common.ShardId]*s
 				data := mempool.EncryptPrivateKeysPackage(au.pubFlip, au.privFlip, pubKeys)
 				want := crypto.FromECDSA(au.privFlip.ExportECDSA())
 				idxs := map[int]bool{0: true, len(pubKeys) / 2: true, len(pubKeys) - 1: true, len(pubKeys): true}
+				// every key-less position and the entry right after it (alignment of the later recipients)
+				for i, extra := 0, 0; i < len(recips) && extra < 16; i++ {
+					if recips[i] == -2 || (recips[i] >= 0 && truth.klOf(order[recips[i]]) != 0) {
+						idxs[i], idxs[i+1] = true, true
+						extra++
+					}
+				}
 				if sampleCands <= 0 && len(pubKeys) <= 16 {
 					for i := range pubKeys {
 						idxs[i] = true
@@ -574,6 +670,8 @@ func runCeremony(e *env, w *lineBuf, pool []*ident, shards map[common.ShardId]*s
 			ss := decode(vc.GetShortFlipsToSolve(me.addr, shardId))
 			sl := decode(vc.GetLongFlipsToSolve(me.addr, shardId))
 			tries := []tr.M{}
+			decCache := map[string][]byte{}
+			leakAt := map[int]int{} // author -> entry of its package that c can decrypt although GetFlipKeys gave nothing (-1: none)
 			for _, f := range tryFlips[c] {
 				a := flipAuthor[f]
 				au := who(a)
@@ -588,27 +686,55 @@ func runCeremony(e *env, w *lineBuf, pool []*ident, shards map[common.ShardId]*s
 				pub, enc, err := vc.GetFlipKeys(me.addr, res.Flips[f])
 				if err != nil {
 					t["err"] = err.Error()
-				} else if dec, err := me.dec.Decrypt(enc, nil, nil); err == nil && bytes.Equal(dec, want) &&
-					bytes.Equal(pub, crypto.FromECDSA(au.pubFlip.ExportECDSA())) {
-					r = "ok"
 				} else {
-					r = "fail"
+					// the same ciphertext comes back for every flip of the author: decrypt it once
+					dec, done := decCache[string(enc)]
+					if !done {
+						if d, err := me.dec.Decrypt(enc, nil, nil); err == nil {
+							dec = d
+						}
+						decCache[string(enc)] = dec
+					}
+					if dec != nil && bytes.Equal(dec, want) && bytes.Equal(pub, crypto.FromECDSA(au.pubFlip.ExportECDSA())) {
+						r = "ok"
+					} else {
+						r = "fail"
+					}
 				}
 				if r != "ok" {
 					// whatever the index says: can c get the key out of ANY entry of the package?
-					if data, ok := pkgData[a]; ok {
-						for i := 0; i < len(recipsOf[a]); i++ {
-							enc, err := mempool.VerifGetEncryptedKeyFromPackage(au.pubFlip, data, i)
-							if err != nil {
-								break
-							}
-							if dec, err := me.dec.Decrypt(enc, nil, nil); err == nil && bytes.Equal(dec, want) {
-								t["leak_at"] = i
-								if idx == -1 {
-									r = "ok"
+					// (once per author: the answer does not depend on the flip)
+					la, seenA := leakAt[a]
+					if !seenA {
+						la = -1
+						if data, ok := pkgData[a]; ok {
+							ents, okE := entries[a]
+							if !okE {
+								for i := 0; i < len(recipsOf[a]); i++ {
+									enc, err := mempool.VerifGetEncryptedKeyFromPackage(au.pubFlip, data, i)
+									if err != nil {
+										break
+									}
+									ents = append(ents, enc)
 								}
-								break
+								entries[a] = ents
 							}
+							for i, enc := range ents {
+								if len(enc) == 0 {
+									continue
+								}
+								if dec, err := me.dec.Decrypt(enc, nil, nil); err == nil && bytes.Equal(dec, want) {
+									la = i
+									break
+								}
+							}
+						}
+						leakAt[a] = la
+					}
+					if la >= 0 {
+						t["leak_at"] = la
+						if idx == -1 {
+							r = "ok"
 						}
 					}
 				}
@@ -672,8 +798,9 @@ func safe(w *lineBuf, where string, info interface{}, f func()) {
 }
 
 type caseIn struct {
-	N int   `json:"n"`
-	K []int `json:"k"`
+	N   int     `json:"n"`
+	K   []int   `json:"k"`
+	Kls [][]int `json:"kls"` // key-less assignments of the layout (per candidate 0 / 1 no key / 2 malformed key)
 }
 
 func seedBytes(rnd *rand.Rand, i int) []byte {
@@ -795,6 +922,20 @@ func main() {
 						runCeremony(e, w, pool, map[common.ShardId]*shardSpec{1: truth}, extras, seeds[0], rnd, 0, 0)
 					})
 				}
+				// key-less candidates: the same layout with candidates whose state record has no usable public key
+				for _, kl := range c.Kls {
+					if len(kl) != c.N {
+						panic("bad key-less assignment")
+					}
+					tk := &shardSpec{ids: truth.ids, k: truth.k, kl: kl}
+					safe(w, "pure", tr.M{"k": c.K, "kl": kl, "q": quota, "seed": hex.EncodeToString(seeds[0])}, func() {
+						ev, _ := evaluateEvent("pure", pool, tk, runPure(pool, tk, nil, seeds[0], quota), quota, seeds[0])
+						w.emit(ev)
+					})
+					safe(w, "ceremony", tr.M{"k": c.K, "kl": kl, "q": quota, "seed": hex.EncodeToString(seeds[0])}, func() {
+						runCeremony(e, w, pool, map[common.ShardId]*shardSpec{1: tk}, nil, seeds[0], rnd, 0, 0)
+					})
+				}
 				// second run of every (seed, quota), in reverse order and inside a two-shard call
 				for i := len(seeds) - 1; i >= 0; i-- {
 					for j := len(qs) - 1; j >= 0; j-- {
@@ -871,6 +1012,11 @@ func main() {
 				}
 				specs[sid].ids = append(specs[sid].ids, id)
 				specs[sid].k = append(specs[sid].k, k)
+				kl := 0
+				if ri%2 == 0 && rnd.Intn(20) == 0 {
+					kl = 1 + rnd.Intn(2) // a few candidates without a usable public key
+				}
+				specs[sid].kl = append(specs[sid].kl, kl)
 			}
 			sd := seedBytes(rnd, 0)
 			w.emit(tr.M{"ev": "Reset", "random": ri, "n": n, "authors": authors, "shards": len(specs)})
